@@ -5,6 +5,7 @@ import HdModel.Model.SniffDriver
 import HdModel.Model.EyeballsDriver
 import HdModel.Model.TimeoutDriver
 import HdModel.Model.WireDriver
+import HdModel.Model.StreamsDriver
 /-! Line-protocol driver.  One case per line:
       `<stream> <input tokens…> | <implementation observation tokens…>`
     Output, one line per case:
@@ -24,6 +25,7 @@ def handle (line : String) : String :=
     | "eb" :: rest => Eyeballs.driverLine rest obs
     | "to" :: rest => Timeout.driverLine rest obs
     | "wire" :: rest => Wire.driverLine rest obs
+    | "st" :: rest => Streams.driverLine rest obs
     | _ => (false, false, "unknown-stream", "")
   s!"{boolTok r.1} {boolTok r.2.1} {r.2.2.1} | {r.2.2.2}"
 
